@@ -318,7 +318,7 @@ pub fn run_y(line: &str) -> String {
         let r = std::panic::catch_unwind(std::panic::AssertUnwindSafe(|| {
             let mut seen: Vec<String> = vec![];
             let mut count = 0usize;
-            if fmt.len() == 3 {
+            if fmt.len() == 3 && !fmt.ends_with('4') {
                 // `..2`: the arithmetic of the default policy; `..3`: a policy whose threshold is reached after one
                 // doubling and that then grows in steps (a long record needs many requests)
                 let (pt, pl) = if fmt.ends_with('3') { (2 * cap, 1usize << 22) } else { (1usize << 23, usize::MAX) };
@@ -359,6 +359,11 @@ pub fn run_y(line: &str) -> String {
                                     }
                                 }
                             }
+                            // a consumer that asks again after the end marker must be told the end again (and must not
+                            // be left waiting: C08 "every consumer behaviour")
+                            if tail == "END" && (rsets.next().is_some() || rsets.next().is_some()) {
+                                tail = "END!again".to_string();
+                            }
                         },
                     );
                 } else {
@@ -396,9 +401,69 @@ pub fn run_y(line: &str) -> String {
                                     }
                                 }
                             }
+                            // a consumer that asks again after the end marker must be told the end again (and must not
+                            // be left waiting: C08 "every consumer behaviour")
+                            if tail == "END" && (rsets.next().is_some() || rsets.next().is_some()) {
+                                tail = "END!again".to_string();
+                            }
                         },
                     );
                 }
+                format!("{} {}", if seen.is_empty() { "-".to_string() } else { seen.join("/") }, tail)
+            } else if fmt == "fa4" {
+                // the generic per-record function (documented as unusable with older compilers; it works with this one)
+                use fasta::Record;
+                let rdr = fasta::Reader::with_capacity(faulty_source(input, fault), cap);
+                let res = parallel::parallel_records(
+                    rdr,
+                    nt,
+                    q,
+                    |rec: fasta::RefRecord, out: &mut CountedOut| {
+                        out.0 = rec_out(rec.head(), rec.owned_seq().len());
+                    },
+                    |rec: fasta::RefRecord, out: &CountedOut| {
+                        let o = rec.to_owned_record();
+                        seen.push(format!("h={}:s={}:o={}", hex(&o.head), hex(&o.seq), if out.0 == rec_out(&o.head, o.seq.len()) { 1 } else { 0 }));
+                        count += 1;
+                        if stop == Some(count) {
+                            Some(())
+                        } else {
+                            None
+                        }
+                    },
+                );
+                let tail = match res {
+                    Ok(Some(())) => "STOP".to_string(),
+                    Ok(None) => "END".to_string(),
+                    Err(e) => format!("E:{}", hex(e.to_string().as_bytes())),
+                };
+                format!("{} {}", if seen.is_empty() { "-".to_string() } else { seen.join("/") }, tail)
+            } else if fmt == "fq4" {
+                use fastq::Record;
+                let rdr = fastq::Reader::with_capacity(faulty_source(input, fault), cap);
+                let res = parallel::parallel_records(
+                    rdr,
+                    nt,
+                    q,
+                    |rec: fastq::RefRecord, out: &mut CountedOut| {
+                        out.0 = rec_out(rec.head(), rec.seq().len());
+                    },
+                    |rec: fastq::RefRecord, out: &CountedOut| {
+                        let o = rec.to_owned_record();
+                        seen.push(format!("h={}:s={}:q={}:o={}", hex(&o.head), hex(&o.seq), hex(&o.qual), if out.0 == rec_out(&o.head, o.seq.len()) { 1 } else { 0 }));
+                        count += 1;
+                        if stop == Some(count) {
+                            Some(())
+                        } else {
+                            None
+                        }
+                    },
+                );
+                let tail = match res {
+                    Ok(Some(())) => "STOP".to_string(),
+                    Ok(None) => "END".to_string(),
+                    Err(e) => format!("E:{}", hex(e.to_string().as_bytes())),
+                };
                 format!("{} {}", if seen.is_empty() { "-".to_string() } else { seen.join("/") }, tail)
             } else if fmt == "fa" {
                 use fasta::Record;
